@@ -81,6 +81,15 @@ func c15CheckPair(t fataler, bt *BlockTree, m *c15Model, a, b int, ctx string) {
 		if r, err := bt.RangeInMemory(ha, hb); !errors.Is(err, ErrStartGreaterThanEnd) {
 			t.Fatalf("%s: RangeInMemory(start=%d above end=%d) = %s, %v; want ErrStartGreaterThanEnd", ctx, a, b, m.names(r), err)
 		}
+	default:
+		// start is not above end and not an ancestor of it (another fork, or another
+		// block of the same number): there is no chain from start to end, so no range
+		if r, err := bt.Range(ha, hb); err == nil {
+			t.Fatalf("%s: Range(%d,%d) = %s without an error although %d is not an ancestor of %d", ctx, a, b, m.names(r), a, b)
+		}
+		if r, err := bt.RangeInMemory(ha, hb); err == nil {
+			t.Fatalf("%s: RangeInMemory(%d,%d) = %s without an error although %d is not an ancestor of %d", ctx, a, b, m.names(r), a, b)
+		}
 	}
 }
 
